@@ -1,5 +1,6 @@
 import VyxalModel.Model.Show
 import VyxalModel.Model.Encoding
+import VyxalModel.Model.Number
 import VyxalModel.Gen.Codepage
 /-! Line protocol: `cmd<TAB>argument`; one answer line per request. -/
 open Vy
@@ -18,6 +19,11 @@ def answer (cmd arg : String) : String :=
      | .error e => s!"ERR {repr e}")
   | "v2u" => showOptCps (vyxalToUtf8 Gen.codepage (parseCps arg))
   | "u2v" => showOptCps (utf8ToVyxal Gen.codepage (parseCps arg))
+  | "numparts" => showOptCps (some (numberParts (parseCps arg)))
+  | "userat" => if numberUsesRational (parseCps arg) then "T" else "F"
+  | "decval" => (match decimalValue (parseCps arg) with
+      | some (n, k) => s!"{n} {k}"
+      | none => "ERR")
   | _ => "BADCMD"
 
 partial def loop (h : IO.FS.Stream) (out : IO.FS.Stream) : IO Unit := do
